@@ -410,7 +410,7 @@ theorem blk_sends_adm (hwf : WF C) {e : Event} {spi0 : List Spi} {i : Nat} {a b 
       · show Ev.acc ppm.c.sender.id _ _ ∈ _
         rw [hown.1, mySig_id, hme]; exact List.mem_cons_self ..
       · rw [hown.2.2] at hc'; exact absurd hc' tPP_ne_tC
-    rcases hmsg with ⟨r', ho'⟩ | ⟨r', nvm, h', ho', hpp, hvotes⟩
+    rcases hmsg with ⟨r', ho'⟩ | ⟨r', nvm, h', ho', hpp, hvotes, _⟩
     · rw [ho'] at hm
       simp only [Out.send.injEq] at hm
       obtain ⟨_, rfl⟩ := hm
